@@ -13,7 +13,7 @@ import (
 )
 
 func cmdCallPath(args []string) int {
-	prog, err := eng.Load("/repo", nil)
+	prog, err := eng.Load(debugRepo(), nil)
 	if err != nil {
 		fmt.Println(err)
 		return 2
@@ -30,7 +30,7 @@ func cmdCallPath(args []string) int {
 }
 
 func cmdCallees(args []string) int {
-	prog, err := eng.Load("/repo", nil)
+	prog, err := eng.Load(debugRepo(), nil)
 	if err != nil {
 		fmt.Println(err)
 		return 2
@@ -47,7 +47,7 @@ func cmdCallees(args []string) int {
 }
 
 func cmdBlocking(args []string) int {
-	prog, err := eng.Load("/repo", nil)
+	prog, err := eng.Load(debugRepo(), nil)
 	if err != nil {
 		fmt.Println(err)
 		return 2
@@ -81,7 +81,7 @@ func cmdBlocking(args []string) int {
 }
 
 func cmdCfg(args []string) int {
-	prog, err := eng.Load("/repo", nil)
+	prog, err := eng.Load(debugRepo(), nil)
 	if err != nil {
 		fmt.Println(err)
 		return 2
@@ -109,7 +109,7 @@ func cmdCfg(args []string) int {
 }
 
 func cmdGoSites(args []string) int {
-	prog, err := eng.Load("/repo", nil)
+	prog, err := eng.Load(debugRepo(), nil)
 	if err != nil {
 		fmt.Println(err)
 		return 2
@@ -169,4 +169,12 @@ func cmdParamTable() int {
 	}
 	fmt.Println("written paramtable_gen.go, pinned_gen.go, pinned_locals.json, pinned_lits.json")
 	return 0
+}
+
+// debugRepo: the tree the development aids look at (KADCHECK_REPO, default /repo).
+func debugRepo() string {
+	if r := os.Getenv("KADCHECK_REPO"); r != "" {
+		return r
+	}
+	return "/repo"
 }
